@@ -453,13 +453,30 @@ func (p *Parser) ParseCompoundAssignmentExpression(left ast.Expression) ast.Expr
 	return expression
 }
 
+// rejectUpdateOperand reports an error when a postfix ++/-- expression is
+// used as the callee or object of a call or member access ('a++(b)', 'a++.b'):
+// nothing can follow a postfix operator but another operator.
+func (p *Parser) rejectUpdateOperand(left ast.Expression) bool {
+	if _, ok := left.(*ast.PostfixExpression); ok {
+		p.AddError(fmt.Sprintf("unexpected %s after postfix operator", p.CurrentToken.Literal))
+		return true
+	}
+	return false
+}
+
 func (p *Parser) ParseCallExpression(fn ast.Expression) ast.Expression {
+	if p.rejectUpdateOperand(fn) {
+		return nil
+	}
 	exp := &ast.CallExpression{Token: p.CurrentToken, Function: fn}
 	exp.Arguments = p.ParseExpressionList(token.RPAREN)
 	return exp
 }
 
 func (p *Parser) ParseMemberExpression(left ast.Expression) ast.Expression {
+	if p.rejectUpdateOperand(left) {
+		return nil
+	}
 	exp := &ast.MemberExpression{
 		Token:    p.CurrentToken,
 		Object:   left,
@@ -482,6 +499,9 @@ func (p *Parser) ParseMemberExpression(left ast.Expression) ast.Expression {
 }
 
 func (p *Parser) ParseComputedMemberExpression(left ast.Expression) ast.Expression {
+	if p.rejectUpdateOperand(left) {
+		return nil
+	}
 	exp := &ast.MemberExpression{
 		Token:    p.CurrentToken,
 		Object:   left,
